@@ -115,9 +115,31 @@ def gen_signal(rng, min_len=1, max_len=80):
         sig = [sig[0]] * rng.randint(1, 3) + sig
     if rng.random() < 0.1 and len(sig) < max_len:
         sig = sig + [sig[-1]] * rng.randint(1, 3)
-    if rng.random() < 0.1:
+    r = rng.random()
+    if r < 0.1:
         off = rng.choice([100.0, -37.0, 0.5, 1e6])
         sig = [x + off for x in sig]
+    elif r < 0.2:
+        # number representation: decimal grids (equal values, equal ranges, but no exact binary/float32
+        # representation), magnitudes beyond 2**24, strain-like tiny amplitudes
+        kind = rng.choice(["decimal", "decimal", "big", "tiny", "pa"])
+        if kind == "decimal":
+            sig = [round(x) * 0.1 for x in sig]
+        elif kind == "big":
+            sig = [float(2 ** 24 + round(x)) for x in sig] if rng.random() < 0.5 else [float(round(x)) * 100000001.0 for x in sig]
+        elif kind == "tiny":
+            sig = [x * 1e-3 / 7.0 for x in sig]
+        else:
+            sig = [round(x) * 1.0e5 + 0.3 for x in sig]
+    elif r < 0.27 and len(sig) > 2:
+        # nearly equal (not equal) neighbours next to larger steps: sensor noise on a plateau or an extremum
+        eps = rng.choice([1e-9, 1e-10, 3e-9, 1e-12])
+        out = []
+        for x in sig:
+            out.append(x)
+            if rng.random() < 0.3:
+                out.append(x + rng.choice([-1, 1]) * eps * rng.choice([1, 2, 0.5]))
+        sig = out
     return sig[:max(max_len, min_len)]
 
 
